@@ -444,10 +444,18 @@ fn lookup_stage(sink: &mut Sink, args: &Args, root: &str, pypkg: &str) {
         return;
     }
     let py = py.unwrap();
+    // the SOURCE rows as the Coq model reads them: per dictionary [system; u1; u2] every row (surface bytes, left id), in file order
+    let coq_rows = clist([lex.as_str(), u1, u2].iter().map(|csv| {
+        clist(csv.lines().map(|l| {
+            let f: Vec<&str> = l.split(',').collect();
+            cpair(&cbytes(f[0].as_bytes()), &cz(f.get(1).and_then(|x| x.parse::<i64>().ok()).unwrap_or(-1)))
+        }))
+    }));
     for (i, s) in sessions.iter().enumerate() {
-        sink.tag("py-lookup");
-        let id = sink.case_rust_only(json!({"kind": "py-lookup", "session": s, "user_lexicons": [u1, u2]}), true);
         let theirs = py["results"][i].as_array().cloned().unwrap_or_default();
+        // run every call of the session on the library first: the Coq term compares the MODEL's answer (Model/LookupAll.v:
+        // rows_answer over the source rows) with the word ids the library and the interpreter returned
+        let mut ops: Vec<(String, bool, Vec<(u32, String)>, Option<Vec<(u32, String)>>, Option<Vec<(u32, String)>>)> = vec![];
         for (k, o) in s["ops"].as_array().unwrap().iter().enumerate() {
             let q = o["query"].as_str().unwrap();
             let expected: Vec<(u32, String)> = rows.iter().filter(|r| r.0 == q && !q.is_empty()).map(|r| (r.2, r.1.clone())).collect();
@@ -461,12 +469,26 @@ fn lookup_stage(sink: &mut Sink, args: &Args, root: &str, pypkg: &str) {
             } else {
                 None
             };
-            if lib.as_ref() != Some(&expected) {
+            ops.push((q.to_string(), o["out"] == json!(true), expected, lib, pyv));
+        }
+        let ids = |v: &Option<Vec<(u32, String)>>| match v {
+            Some(x) => clist(x.iter().map(|e| cn(e.0))),
+            None => clist(vec![cn(u32::MAX)]), // no answer: never what the model says
+        };
+        let obs = clist(ops.iter().flat_map(|(q, _, _, lib, pyv)| vec![cpair(&cbytes(q.as_bytes()), &ids(lib)), cpair(&cbytes(q.as_bytes()), &ids(pyv))]));
+        sink.tag("py-lookup");
+        let id = sink.case(
+            format!("check_lookup {} {}", coq_rows, obs),
+            json!({"kind": "py-lookup", "session": s, "user_lexicons": [u1, u2]}),
+            ops.iter().any(|o| !o.2.is_empty()),
+        );
+        for (k, (q, reused, expected, lib, pyv)) in ops.iter().enumerate() {
+            if lib.as_ref() != Some(expected) {
                 sink.fail(id, &format!("MorphemeList::lookup({:?}) over [system, u1, u2] gives (word id, reading) {:?}; the rows of the source lexicons with that surface, last user dictionary first: {:?}", q, lib, expected), "");
                 break;
             }
-            if pyv.as_ref() != Some(&expected) {
-                sink.fail(id, &format!("op {}: Dictionary.lookup({:?}{}) in Python gives (word id, reading) {:?}; the rows of the source lexicons with that surface, last user dictionary first: {:?}", k, q, if o["out"] == json!(true) { ", out=reused" } else { "" }, pyv, expected), "");
+            if pyv.as_ref() != Some(expected) {
+                sink.fail(id, &format!("op {}: Dictionary.lookup({:?}{}) in Python gives (word id, reading) {:?}; the rows of the source lexicons with that surface, last user dictionary first: {:?}", k, q, if *reused { ", out=reused" } else { "" }, pyv, expected), "");
                 break;
             }
         }
@@ -474,8 +496,8 @@ fn lookup_stage(sink: &mut Sink, args: &Args, root: &str, pypkg: &str) {
 }
 
 pub fn run(args: &Args) {
-    let mut sink = Sink::new("C19", &args.out, &["Model.Cli", "Model.CliColumns", "Model.PyProjection"], args.seed, &args.tier);
-    sink.rule("python: sessions {create(mode, fields subset, projection); 1..6 ops of tokenize(text, per-call mode, out= reuse) / Morpheme.split(mode, out=, add_single) / Dictionary.lookup} run in the sudachipy module built from the working tree and mirrored on the Rust library, compared field by field (surface, raw_surface, begin/end with text[begin:end] == raw_surface, POS, forms, ids, split results); CLI: multi-line files (blank lines, CRLF, no final newline) x modes x {-w, -a, default} x --split-sentences {yes,no,only}, stdout compared byte for byte with the library's morphemes in the documented format; Coq: Model/PyProjection.v (the field-name parser and create()'s subset; for every tokenize / split call the model's projection of the library's morphemes must equal what Morpheme.surface() returned in the interpreter); the line-handling and surface-only-output models against what the tool demonstrably analysed/printed; non-trivial = at least one non-empty text; distinct by content");
+    let mut sink = Sink::new("C19", &args.out, &["Model.Cli", "Model.CliColumns", "Model.PyProjection", "Model.LookupAll"], args.seed, &args.tier);
+    sink.rule("python: sessions {create(mode, fields subset, projection); 1..6 ops of tokenize(text, per-call mode, out= reuse) / Morpheme.split(mode, out=, add_single) / Dictionary.lookup} run in the sudachipy module built from the working tree and mirrored on the Rust library, compared field by field (surface, raw_surface, begin/end with text[begin:end] == raw_surface, POS, forms, ids, split results); CLI: multi-line files (blank lines, CRLF, no final newline) x modes x {-w, -a, default} x --split-sentences {yes,no,only}, stdout compared byte for byte with the library's morphemes in the documented format; Coq: Model/PyProjection.v (the field-name parser and create()'s subset; for every tokenize / split call the model's projection of the library's morphemes must equal what Morpheme.surface() returned in the interpreter); Model/LookupAll.v (lookup stage: for every Dictionary.lookup / MorphemeList::lookup call over the stack system+u1+u2 the model's answer computed from the SOURCE rows must equal the word ids the library and the interpreter returned); the line-handling and surface-only-output models against what the tool demonstrably analysed/printed; non-trivial = at least one non-empty text; distinct by content");
     let mut rng = Rng::new(args.seed);
     let res = format!("{}/python/tests/resources", repo());
     let cfg_path = format!("{}/sudachi.json", res);
